@@ -755,6 +755,9 @@ def m_aead(I, st, info, args, depth):
         # produced under another key / nonce / associated data: authentication fails (AEAD integrity)
         st.cond.append("aead decrypt fails (other key / nonce / aad)")
         return ret(st, err(Sym("aead::Error")))
+    if getattr(I, "composition", False):
+        st.cond.append("aead decrypt fails (not an AEAD output under this key / nonce / aad)")
+        return ret(st, err(Sym("aead::Error")))
     out = []
     for s2, t in MD.fork_bool(I, st, I.compare(st, "Ge", msg.length, Aff(16))):
         if not t:
@@ -783,6 +786,11 @@ def m_cteq(I, st, info, args, depth):
         return ret(st, ok(UNIT))
     if re.search(MACLIKE, da) and re.search(MACLIKE, db):
         # two different MAC computations: unequal (MAC strength)
+        st.events.append(("auth_fail", "tag", da, db))
+        st.cond.append("tags differ")
+        return ret(st, err(Sym("ring::error::Unspecified")))
+    if getattr(I, "composition", False):
+        # both operands stem from known computations (the producing side's output): different descriptions are different values
         st.events.append(("auth_fail", "tag", da, db))
         st.cond.append("tags differ")
         return ret(st, err(Sym("ring::error::Unspecified")))
@@ -873,6 +881,10 @@ def _verify(I, st, alg, pkd, msgd, sigd):
             st.events.append(("auth_ok", "sig", alg, pkd, msgd, sigd))
             return ret(st, ok(UNIT))
         st.cond.append("signature does not verify (other key / message)")
+        st.events.append(("auth_fail", "sig", alg, pkd, msgd, sigd))
+        return ret(st, err(Sym("signature::Error")))
+    if getattr(I, "composition", False):
+        st.cond.append("signature does not verify (not a signature of this message under this key)")
         st.events.append(("auth_fail", "sig", alg, pkd, msgd, sigd))
         return ret(st, err(Sym("signature::Error")))
     s2 = st.clone()
